@@ -1,6 +1,7 @@
 package c11
 
 import (
+	"bytes"
 	"context"
 	"crypto/ed25519"
 	"crypto/sha256"
@@ -35,8 +36,11 @@ type cacheOp struct {
 	TTL time.Duration
 }
 
+// centry: like the in-memory cache of production the entry keeps the slice it was handed (no copy); a private copy taken
+// at the same moment tells whether somebody wrote to that memory afterwards
 type centry struct {
 	v     []byte
+	orig  []byte
 	exp   time.Time
 	noexp bool
 }
@@ -62,12 +66,27 @@ func (c *recCache) Get(_ context.Context, key string) ([]byte, error) {
 		return nil, errNoEntry
 	}
 
-	return append([]byte(nil), e.v...), nil
+	return e.v, nil
+}
+
+// modified returns the keys of the entries whose memory was written to after they had been stored.
+func (c *recCache) modified() []string {
+	var out []string
+
+	for k, e := range c.m {
+		if !bytes.Equal(e.v, e.orig) {
+			out = append(out, k)
+		}
+	}
+
+	sort.Strings(out)
+
+	return out
 }
 
 func (c *recCache) Set(_ context.Context, key string, value []byte, ttl time.Duration) error {
 	c.ops = append(c.ops, cacheOp{Key: key, TTL: ttl})
-	c.m[key] = centry{v: append([]byte(nil), value...), exp: time.Now().Add(ttl), noexp: ttl <= 0}
+	c.m[key] = centry{v: value, orig: append([]byte(nil), value...), exp: time.Now().Add(ttl), noexp: ttl <= 0}
 
 	return nil
 }
